@@ -255,12 +255,21 @@ func c08janScenario(c *c20ctx, def int, script []janOp, bound int) {
 				if finalGet[k] != e.val || !listed {
 					return "Cache+janitor.end/live-entry-removed", fmt.Sprintf("at the end (t=%d) the live entry %s=%s is gone (Get=%s, listed=%t)", tEnd, k, e, finalGet[k], listed)
 				}
-			case e.hi < tEnd-2:
+			case e.hi < tEnd-2 && e.hi >= tEnd-int64(janInterval):
+				// expired, but less than one interval ago: served it must not be; whether the sweep has
+				// come round yet depends on how the cleanup goroutine schedules itself
 				if finalGet[k] != "!err" {
 					return "Cache+janitor.end/expired-entry-served", fmt.Sprintf("at the end (t=%d) Get(%s)=%s although the entry %s has expired", tEnd, k, finalGet[k], e)
 				}
 				if listed {
-					return "Cache+janitor.end/expired-entry-not-cleaned-up", fmt.Sprintf("at the end (t=%d, janitor idle, last tick >= %d) the entry %s=%s expired more than one interval's worth of ticks ago and is still stored", tEnd, tEnd-2, k, e)
+					present++
+				}
+			case e.hi < tEnd-int64(janInterval):
+				if finalGet[k] != "!err" {
+					return "Cache+janitor.end/expired-entry-served", fmt.Sprintf("at the end (t=%d) Get(%s)=%s although the entry %s has expired", tEnd, k, finalGet[k], e)
+				}
+				if listed {
+					return "Cache+janitor.end/expired-entry-not-cleaned-up", fmt.Sprintf("at the end (t=%d, janitor idle after two more intervals) the entry %s=%s expired more than one interval ago and is still stored", tEnd, k, e)
 				}
 			default:
 				maybe++
@@ -392,8 +401,8 @@ func c08janGraph(arg string, def int) {
 				me = "never"
 				if !mm.ent.never {
 					d := mm.ent.lo - now()
-					if d < -int64(janInterval)-2 {
-						d = -int64(janInterval) - 2 // long expired
+					if d < -2*int64(janInterval)-2 {
+						d = -2*int64(janInterval) - 2 // long expired
 					}
 					me = fmt.Sprint(d)
 				}
@@ -442,9 +451,13 @@ func c08janGraph(arg string, def int) {
 			live := e0 != nil && (e0.never || t < e0.lo)
 			dead := e0 == nil || (!e0.never && t > e0.lo)
 			// quiescent: the janitor is parked -- every tick that was due has been handled
-			if vrt.ThreadParked(janitor) && e0 != nil && !e0.never && e0.lo < (t/janInterval)*janInterval {
+			// "expired entries disappear within about one interval": one interval for the sweep to come
+			// round plus one for a cleanup goroutine that was kept from running (the fairness bound
+			// above) -- how the goroutine schedules its sweeps (a ticker, a timer re-armed after each
+			// sweep, a drifting one) is its own business
+			if vrt.ThreadParked(janitor) && e0 != nil && !e0.never && t > e0.lo+2*janInterval {
 				if _, listed := ca.List()["x"]; listed {
-					mm.viol, mm.det = "Cache+janitor.graph/expired-entry-not-cleaned-up", fmt.Sprintf("at time %d the janitor is idle, the last tick was at %d and the entry that expired at %d is still stored", t, (t/janInterval)*janInterval, e0.lo)
+					mm.viol, mm.det = "Cache+janitor.graph/expired-entry-not-cleaned-up", fmt.Sprintf("at time %d the janitor is idle and the entry that expired at %d, more than two intervals ago, is still stored", t, e0.lo)
 					break
 				}
 				mm.ent, e0 = nil, nil // swept: from here on the key is simply not stored
